@@ -784,6 +784,8 @@ class Interpreter(Interp):
             if attr in obj.attrs:
                 return obj.attrs[attr]
             raise OutOfReach(f"module attribute {obj.name}.{attr} is not modelled")
+        if callable(obj) and not isinstance(obj, (SV, Rec)):
+            raise exc("AttributeError", f"host callable has no attribute '{attr}'")
         raise OutOfReach(f"getattr {attr} on {type(obj).__name__}")
 
     def bind_method(self, v, obj, owner):
@@ -1231,6 +1233,7 @@ _CONCRETE_METHODS = {
     ("list", "reverse"): lambda i, l: l.reverse(),
     ("SymPySet", "add"): lambda i, s, x: i.pyset_add(s, x),
     ("SymPySet", "copy"): lambda i, s: SymPySet(s),
+    ("SymPySet", "issubset"): lambda i, s, o: all(i.branch_truth(i.wrapb(i.contains(o, x)), "issubset") for x in s),
     ("SymPySet", "union"): lambda i, s, *o: _set_union(i, s, *o),
     ("SymPySet", "difference"): lambda i, s, o: SymPySet([x for x in s if i.contains(o, x) is False or
                                                           (i.contains(o, x) is not True and not i.branch_truth(i.wrapb(i.contains(o, x)), "diff"))]),
